@@ -48,11 +48,11 @@ TCliOut ==
        \/ "Cli!PartialStdout" \in Deviations /\ exit = 1 /\ Ev.out = "partial"
     /\ UNCHANGED core
 
-\* as built only (KF-C01-01): the execution was killed on its CPU budget AND the input lies in the finding's narrow
-\* domain (fields of the event = what the harness read from the input's OLE property sets)
+\* as built only (open findings KF-C01-01..03): the execution was killed on its CPU budget AND the input lies in
+\* the narrow domain of a finding whose deviation is on (fields of the event = what the harness read from the input)
 TKnownSpin ==
-    /\ IsEvent("Timeout") /\ "Ole!VectorCountLoop" \in Deviations
-    /\ Ev.k \in LegacyKinds /\ InDomain_KF_C01_01(Ev)
+    /\ IsEvent("Timeout")
+    /\ \E dv \in Deviations \cap SpinDeviations : Ev.k \in SpinKinds(dv) /\ InDomain(dv, Ev)
     /\ UNCHANGED core
 
 TraceInit ==
